@@ -592,6 +592,8 @@ class C01Gen(gen_pkgs.DenseGen):
     def ty(self, tparams, depth=0):
         if self.anon and depth < self.max_depth and self.rng.random() < self.anon:
             return self.anon_iface(tparams)
+        if self.ext and self.rng.random() < 0.04:      # the local alias of a foreign type (type AliasC = h1.Client)
+            return {"k": "alias", "pkg": "", "n": "AliasC", "targs": []}
         return super().ty(tparams, depth)
 
     def anon_iface(self, tparams):
@@ -656,7 +658,7 @@ def gen_module(rng, k):
 
 
 SHAPES = ["ShapesPlain", "ShapesVariadic1", "ShapesVariadic0", "ShapesVariadic2", "ShapesAllocated", "ShapesGeneric", "ShapesConstraint",
-          "ShapesEmbedded", "ShapesLongUnnamed", "ShapesLongNamed", "ShapesAnonIface", "ShapesAnonConstraint", "ShapesVariadicAnyLike", "ShapesEmpty"]
+          "ShapesEmbedded", "ShapesLongUnnamed", "ShapesLongNamed", "ShapesAnonIface", "ShapesAnonConstraint", "ShapesVariadicAnyLike", "ShapesAlias", "ShapesEmpty"]
 
 
 def corpus_module():
@@ -667,8 +669,13 @@ def corpus_module():
         return None
     e = gen_pkgs.EXT[0]
     files = {"ext/http/types.go": gen_pkgs.ext_source(e), "ext/http/company.go": "package http\n\ntype Company struct{ N int }\n",
+             "ext/wire/types.go": "package wire\n\ntype Frame struct{ N int }\n",
+             "ext/pairs/types.go": "package pairs\n\ntype Pair[K comparable, V any] struct {\n\tKey K\n\tVal V\n}\n",
+             "ext/inner/types.go": "package inner\n\ntype Thing struct{ N int }\n",
+             "ext/fwd/types.go": "package fwd\n\nimport \"%s/ext/inner\"\n\n// an alias declared in an ext package\ntype Thing = inner.Thing\n" % gen_pkgs.MOD,
              "src/src.go": f.read_text()}
-    return {"files": files, "ifaces": [], "static_names": SHAPES, "ext": [e], "std": gen_pkgs.STD, "mod": gen_pkgs.MOD,
+    more = [{"path": gen_pkgs.MOD + "/ext/" + n, "name": n, "alias": ""} for n in ("wire", "pairs", "inner", "fwd")]
+    return {"files": files, "ifaces": [], "static_names": SHAPES, "ext": [e] + more, "std": gen_pkgs.STD, "mod": gen_pkgs.MOD,
             "src": {"path": gen_pkgs.MOD + "/src", "name": "src"}, "corpus": True}
 
 
